@@ -62,7 +62,15 @@ var prop = vh.Define("C03", "roundtrip", func(c Case, r *vh.R) {
 		}
 		return
 	}
+	mayFail, _ := s.WriteMayFail()
+	if mayFail {
+		r.Class("non-ascii-header")
+	}
 	if werr != nil {
+		if mayFail {
+			r.Class("write-refused-non-ascii-header")
+			return
+		}
 		r.Failf("write-error", "WriteTo failed on a valid bundle: %v", werr)
 		return
 	}
